@@ -386,4 +386,17 @@ Proof.
   - destruct (wg_find (S (S j)) (wg_open s)); reflexivity.
   - destruct (wg_find (S (S j)) (wg_open s)); reflexivity.
 Qed.
+
+Theorem window_machines_keep_source :
+  (forall count skip k, never_unsubs (x_window_count (A:=A) (B:=B) count skip) k)
+  /\ (forall span shift k, never_unsubs (x_window_time (A:=A) (B:=B) span shift) k)
+  /\ (forall span count k, never_unsubs (x_window_time_or_count (A:=A) (B:=B) span count) k)
+  /\ (forall k, never_unsubs (x_window_boundaries (A:=A) (B:=B)) k)
+  /\ (forall mapper, never_unsubs (x_window_when (A:=A) (B:=B) mapper) 0%nat)
+  /\ (forall mapper, never_unsubs (x_window_toggle (A:=A) (B:=B) mapper) 0%nat).
+Proof.
+  exact (conj window_count_never_unsubs (conj window_time_never_unsubs
+    (conj window_time_or_count_never_unsubs (conj window_boundaries_never_unsubs
+    (conj window_when_never_unsubs_source window_toggle_never_unsubs_source))))).
+Qed.
 End NeverUnsub.
